@@ -326,7 +326,9 @@ string Handle(const string &payload) {
   bool oversize_script = false;   // the stream contains a right-version header announcing more than 1 MB
   bool still_open = false;
   {
-    RpcChannel channel(&service, &sock, &export_map);
+    bool no_service = false;
+    for (size_t t = 0; t < toks.size(); t++) if (toks[t] == "N") no_service = true;
+    RpcChannel channel(no_service ? NULL : &service, &sock, &export_map);
     channel.SetChannelCloseHandler(ola::NewSingleCallback(&OnChannelCloseA));
     unsigned idx = 0;
     for (size_t t = 0; t < toks.size(); t++) {
@@ -336,6 +338,7 @@ string Handle(const string &payload) {
       string rest = tok.substr(1);
       if (c == '@' || c == 'T' || c == 'Q') continue;
       if (c == 'X') { oversize_script = true; continue; }
+      if (c == 'N') continue;
       if (c == 'A') { service.async = true; continue; }
       if (c == 'z') {
         // fill the channel's send direction so that every later Send() fails; stop reading our end
